@@ -2,6 +2,7 @@ import RPVerif.Lemmas.Sched
 import RPVerif.Lemmas.SchedHist
 import RPVerif.Lemmas.NodeList
 import RPVerif.Lemmas.SchedRun
+import RPVerif.Lemmas.JsrunSched
 
 /-!
 # C01 — Pilot resources are never oversubscribed
@@ -290,5 +291,85 @@ example :
     allocChecked n { node := 0, cores := [(0, 16)], gpus := [(0, 16)], lfs := 0, mem := 0 } = none
     ∧ (allocChecked n { node := 0, cores := [(0, 16)], gpus := [(1, 16)], lfs := 0, mem := 0 }).isSome = true := by
   decide
+
+/-! ## the JSRUN flavour of the scheduler (`continuous_jsrun.py`)
+
+`ContinuousJsrun` hands out whole cores and whole GPUs in *resource sets*: the ranks of one set share the
+GPUs of that set.  `jrun` is every history of `_try_allocation` and releases (`JOp`), `keysBy coreF` /
+`keysBy gpuF` are the (node, core) and (node, GPU) pairs held by the tasks that were granted a placement
+and have not released it. -/
+
+open RPVerif.JsrunSched in
+/-- **no core and no GPU is held twice**, at every moment of every history of arrivals and releases over
+    any node list with distinct node indices -/
+theorem C01_jsrun_disjoint (cfg : JCfg) (nodes : List Sched.NodeSt) (ops : List JOp)
+    (hidx : (nodes.map (·.index)).Nodup) :
+    (keysBy coreF (jrun cfg { nodes := nodes } ops).held).Nodup ∧
+    (keysBy gpuF (jrun cfg { nodes := nodes } ops).held).Nodup :=
+  let h := jrun_inv cfg _ ops (init_inv nodes hidx)
+  ⟨h.cND, h.gND⟩
+
+open RPVerif.JsrunSched in
+/-- what is held is marked BUSY in the node map the next placement is searched in (so it is not offered
+    again: `_find_resources` only takes FREE entries, `findJ_spec`) -/
+theorem C01_jsrun_held_busy (cfg : JCfg) (nodes : List Sched.NodeSt) (ops : List JOp)
+    (hidx : (nodes.map (·.index)).Nodup) :
+    (∀ k ∈ keysBy coreF (jrun cfg { nodes := nodes } ops).held,
+        ∃ n, nodeAt (jrun cfg { nodes := nodes } ops).nodes k.1 = some n ∧ n.cores[k.2]? = some .busy) ∧
+    (∀ k ∈ keysBy gpuF (jrun cfg { nodes := nodes } ops).held,
+        ∃ n, nodeAt (jrun cfg { nodes := nodes } ops).nodes k.1 = some n ∧ n.gpus[k.2]? = some .busy) :=
+  let h := jrun_inv cfg _ ops (init_inv nodes hidx)
+  ⟨h.cBusy, h.gBusy⟩
+
+open RPVerif.JsrunSched in
+/-- **blocked cores and GPUs are never handed out**: whatever is held at any moment is not marked
+    unusable (DOWN) in the node list the pilot started with -/
+theorem C01_jsrun_blocked_never (cfg : JCfg) (nodes : List Sched.NodeSt) (ops : List JOp)
+    (hidx : (nodes.map (·.index)).Nodup) :
+    (∀ k ∈ keysBy coreF (jrun cfg { nodes := nodes } ops).held, ∀ n0, nodeAt nodes k.1 = some n0 →
+        n0.cores[k.2]? ≠ some .down) ∧
+    (∀ k ∈ keysBy gpuF (jrun cfg { nodes := nodes } ops).held, ∀ n0, nodeAt nodes k.1 = some n0 →
+        n0.gpus[k.2]? ≠ some .down) := by
+  have h := jrun_inv cfg _ ops (init_inv nodes hidx)
+  have hd := jrun_down nodes cfg _ ops (init_inv nodes hidx) (init_down nodes)
+  constructor
+  · intro k hk n0 hn0 hdown
+    obtain ⟨n, hn, hc, _⟩ := hd k.1 n0 hn0
+    obtain ⟨n', hn', hb⟩ := h.cBusy k hk
+    rw [hn] at hn'; simp at hn'; subst hn'
+    rw [hc k.2 hdown] at hb; simp at hb
+  · intro k hk n0 hn0 hdown
+    obtain ⟨n, hn, _, hg⟩ := hd k.1 n0 hn0
+    obtain ⟨n', hn', hb⟩ := h.gBusy k hk
+    rw [hn] at hn'; simp at hn'; subst hn'
+    rw [hg k.2 hdown] at hb; simp at hb
+
+open RPVerif.JsrunSched in
+/-- **the shares held on the GPUs of a resource set sum to at most those GPUs**: however a request with
+    `ranks` ranks of `gpr`/16 GPU each is cut into resource sets, the ranks of one set together ask for no
+    more than the whole GPUs the set owns, and the sets together place every rank -/
+theorem C01_jsrun_shares (ranks cpr gpr lfs mem : Nat) (hr : 0 < ranks) :
+    (shape ranks cpr gpr lfs mem).ranksPerSlot * gpr ≤ (shape ranks cpr gpr lfs mem).gpusPerSlot * 16 ∧
+    (shape ranks cpr gpr lfs mem).reqSlots * (shape ranks cpr gpr lfs mem).ranksPerSlot = ranks := by
+  by_cases hg : gpr % 16 = 0
+  · simp only [shape, hg, ne_eq, not_true_eq_false, if_false, Nat.one_mul, Nat.mul_one, and_true]
+    have := Nat.div_mul_cancel (Nat.dvd_of_mod_eq_zero hg)
+    omega
+  · exact ⟨(shape_frac ranks cpr gpr lfs mem hr hg).1, (shape_frac ranks cpr gpr lfs mem hr hg).2.1⟩
+
+open RPVerif.JsrunSched in
+/-- a node never serves more lfs or memory than it has left -/
+theorem C01_jsrun_find (n : Sched.NodeSt) (nSlots rps cps gps lfs mem : Nat) (part : Bool) (sl : List RSlot)
+    (h : findJ n nSlots rps cps gps lfs mem part = .ok (some sl)) :
+    (coresOf sl).Nodup ∧ (∀ c ∈ coresOf sl, n.cores[c]? = some .free) ∧
+    (gpusOf sl).Nodup ∧ (∀ g ∈ gpusOf sl, n.gpus[g]? = some .free) ∧
+    sl.length * lfs ≤ n.lfs.toNat ∧ sl.length * mem ≤ n.mem.toNat :=
+  let ⟨_, _, a, b, c, d, e, f⟩ := findJ_spec n nSlots rps cps gps lfs mem part sl h
+  ⟨a, b, c, d, e, f⟩
+
+/-- tests: 5 ranks of half a GPU are cut into one set of 5 ranks owning 3 GPUs; 4 ranks of a quarter GPU
+    into one set owning one GPU; and a two-node history in which the second task cannot take what the
+    first holds -/
+example : JsrunSched.shape 5 1 8 0 0 = ⟨1, 5, 5, 3, 0, 0⟩ ∧ JsrunSched.shape 4 1 4 0 0 = ⟨1, 4, 4, 1, 0, 0⟩ := by decide
 
 end RPVerif.C01
